@@ -152,7 +152,7 @@ func genSliverCase(rng *fw.Rng) *SnapCase {
 func init() {
 	pr := &Profile{Sets: c06Sets, Kinds: append(append([]string{}, allKinds...), "junk", "motif", "motif")}
 	fw.Register(&fw.Prop{
-		ID: "C06", Cases: tierN(200000, 5000000),
+		ID: "C06", Cases: tierN(300000, 6000000),
 		Run: func(c *fw.Ctx) {
 			if c.Idx%50 == 7 {
 				judgeC06(c, genSliverCase(c.Rng))
